@@ -146,4 +146,61 @@ for nm in ("sexp_add", "sexp_sub"):
     GROUPS.append(dict(WORDS, name=nm, entry="h_" + nm, functions=["bignum.c:" + nm + "(exact integer operands)", "bignum.c:sexp_number_type"],
                        bound=BOUND2 + "; operand kinds fixnum/bignum enumerated", instances=kinds(nm),
                        stubs=WORDS["stubs"] + ["sexp_ratio_add", "sexp_complex_add", "sexp_complex_sub", "sexp_ratio_to_double", "sexp_bignum_to_double", "sexp_number_type", "sexp_bignum_fxadd", "sexp_bignum_fxsub"]))
-META = {}
+def replay_repr(spec, inputs, workdir):
+    hi, lo = int(inputs.get("in_hi", 0)), int(inputs.get("in_lo", 0))
+    x = (hi << 64) | lo
+    signed = spec["group"] == "from_lsint"
+    if signed and x >= (1 << 127):
+        x -= (1 << 128)
+    fn = "sexp_make_integer_from_lsint" if signed else "sexp_make_unsigned_integer_from_luint"
+    code = r"""
+#include "chibi/eval.h"
+#include "chibi/bignum.h"
+int main(void){ sexp ctx = sexp_make_eval_context(NULL, NULL, NULL, 0, 0);
+  %s x = (%s)(((unsigned __int128)%dUL << 64) | %dUL);
+  sexp r = %s(ctx, x);
+  if (sexp_fixnump(r)) printf("F %%ld\n", (long)sexp_unbox_fixnum(r));
+  else { printf("B %%d %%lu", (int)sexp_bignum_sign(r), (unsigned long)sexp_bignum_length(r));
+    for (unsigned long i = 0; i < sexp_bignum_length(r); i++) printf(" %%lu", sexp_bignum_data(r)[i]); printf("\n"); }
+  return 0; }
+""" % ("sexp_lsint_t" if signed else "sexp_luint_t", "sexp_lsint_t" if signed else "sexp_luint_t", hi, lo, fn)
+    rc, o = native.run_driver(workdir, "replay_repr", code)
+    line = [l for l in o.splitlines() if l[:2] in ("F ", "B ")]
+    if not line:
+        return False, o[-500:]
+    t = line[0].split()
+    got = int(t[1]) if t[0] == "F" else _val([int(w) for w in t[3:]], int(t[1]))
+    return got != x, "%s(%d) -> %s (value %d)%s" % (fn, x, line[0], got, " MISMATCH" if got != x else "")
+
+
+cb = []
+for la in (1, 2, 3):
+    for len0 in (0, 1, la + 1):
+        for dm, lb in ((0, 1), (1, 1), (1, 3)):
+            cb.append({"name": "a%d_len%d_dst%d_%d" % (la, len0, dm, lb),
+                       "defs": {"LA": la, "HA": la, "LB": lb, "HB": 1, "LEN0": len0, "DSTMODE": dm},
+                       "tiers": ["quick", "thorough"] if la <= 2 else ["thorough"]})
+GROUPS.append(dict(WORDS, name="copy_bignum", entry="h_copy_bignum", stubs=["sexp_bignum_hi"], functions=["bignum.c:sexp_copy_bignum"],
+                   bound="source length <= 3, requested length in {0, 1, L+1}, dst in {NULL, 1 word, 3 words}; contents symbolic", instances=cb))
+REPR = {"replay": replay_repr, "harness": "harness/C04/repr.c", "label": "proved", "flags": SMALL, "link_src": ["harness/C04/stubs.c"], "unwind": 6,
+        "min_obligations": 3, "timeout": 200, "instances": [{"name": "all_inputs"}],
+        "assumptions": ["sexp_alloc_tagged_aux is alloc_plain (fresh zeroed object of exactly the requested size)"]}
+GROUPS.append(dict(REPR, name="from_lsint", entry="h_from_lsint", functions=["bignum.c:sexp_make_integer_from_lsint", "bignum.c:sexp_make_bignum"]))
+GROUPS.append(dict(REPR, name="from_luint", entry="h_from_luint", functions=["bignum.c:sexp_make_unsigned_integer_from_luint"]))
+GROUPS.append(dict(REPR, name="fixnum_to_bignum", entry="h_fixnum_to_bignum", functions=["bignum.c:sexp_fixnum_to_bignum"]))
+GROUPS.append(dict(REPR, name="number_type", entry="h_number_type", functions=["bignum.c:sexp_number_type"]))
+GROUPS.append({"name": "hi", "label": "proved", "harness": "harness/C04/lenfns.c", "entry": "h_hi", "flags": SMALL,
+               "link_src": ["harness/C04/stubs.c"], "loop_contracts": "harness/C04/hi_loops.json", "enforce": [],
+               "functions": ["bignum.c:sexp_bignum_hi"], "min_obligations": 5, "timeout": 200,
+               "bound": "none: loop closed by a loop contract (invariant + decreases), length symbolic up to 2^28 words",
+               "instances": [{"name": "any_length"}], "expected_loops": {"sexp_bignum_hi": 1}})
+META = {
+ "trusted_base": ["CBMC 6.11.0 front end, goto-instrument loop-contract instrumentation, SAT back end (MiniSat)",
+                  "harness/prelude.h substitutions: exact-field accessors, sign test via shift (CBMC folds (sexp_sint_t)p < 0 to false), 128-bit shim",
+                  "two's-complement wrap of signed arithmetic as GCC/Clang implement it (signed-overflow check off)"],
+ "assumptions": ["mathematical value V(x) is a 704-bit bit-vector: exact for operands up to 10 words"],
+ "not_covered": ["sexp_bignum_mul beyond the single-word multiplier path (Karatsuba identity needs nonlinear reasoning): functional correctness UNDECIDED",
+                 "sexp_bignum_quot_rem, fxdiv, fxrem, sexp_bignum_expt, sexp_bignum_sqrt, gcd / ratio_normalize, double<->bignum: not decided by this technique (128-bit division equalities time out)",
+                 "number text I/O (ports, snprintf), string->number/number->string", "Scheme-level procedures of init-7.scm / extras.scm",
+                 "fixnum fast paths of the VM opcodes: see group vm_arith when present"],
+}
